@@ -5,8 +5,8 @@ import (
 	"encoding/json"
 	"flag"
 	"fmt"
-	"math/rand"
 	"io"
+	"math/rand"
 	"net"
 	"os"
 	"os/exec"
@@ -37,6 +37,10 @@ type scen struct {
 	// DiscAfter: the remote station disconnects (NEWSTATE DISC, DISCONNECTED) right after the last ARQ frame, and the
 	// application starts reading only afterwards: it must still get every byte, then end-of-stream
 	DiscAfter bool `json:"discafter"`
+	// TNC behaviours: see Sim.DiscStyle, Sim.EarlyData (EarlyData = payload size, 0 = none), Sim.NoiseBeforeBuffer
+	DiscStyle         string `json:"discstyle"`
+	EarlyData         int    `json:"earlydata"`
+	NoiseBeforeBuffer bool   `json:"noisebeforebuffer"`
 }
 
 func guard(f func()) (pan string) {
@@ -90,6 +94,10 @@ func runScenario(sc scen) []rec.Event {
 	}
 	sim.CRCFaults = 0
 	sim.BufferAfter = sc.Buffers
+	sim.DiscStyle, sim.NoiseBeforeBuffer = sc.DiscStyle, sc.NoiseBeforeBuffer
+	if sc.EarlyData > 0 {
+		sim.EarlyData = pattern(49, sc.EarlyData)
+	}
 	if sc.Script == "stale-report-crcfault" {
 		// the BUFFER 0 about frame 1 crosses frame 2, which the TNC then answers with CRCFAULT (Ardop_stalefault.cfg)
 		sim.BufferScript = map[int][]int{1: {50}}
@@ -184,7 +192,12 @@ func runScenario(sc scen) []rec.Event {
 			done := make(chan struct{})
 			var at time.Time
 			sim.Note("flushCall", 0)
-			go func() { pan = guard(func() { ferr = f.Flush() }); at = time.Now(); sim.Note("flushRet", 0); close(done) }()
+			go func() {
+				pan = guard(func() { ferr = f.Flush() })
+				at = time.Now()
+				sim.Note("flushRet", 0)
+				close(done)
+			}()
 			early := false
 			select {
 			case <-done:
@@ -242,6 +255,9 @@ func runScenario(sc scen) []rec.Event {
 				}
 			})
 		}()
+		if sc.EarlyData > 0 && sc.Kind == "inbound" {
+			want = append(want, pattern(49, sc.EarlyData)...)
+		}
 		for i, n := range sc.Frames {
 			p := pattern(50+i, n)
 			want = append(want, p...)
@@ -296,8 +312,12 @@ func runScenario(sc scen) []rec.Event {
 		}
 	}
 	var cerr error
-	ret := within(6*time.Second, func() { pan = guard(func() { cerr = conn.Close() }) })
+	sim.Note("closeCall", 0)
+	ret := within(6*time.Second, func() { pan = guard(func() { cerr = conn.Close() }); sim.Note("closeRet", 0) })
 	add(rec.Event{"op": "Api", "call": "Close", "ok": ret && pan == "" && cerr == nil, "panic": pan, "err": fmt.Sprint(cerr)})
+	if !sc.DiscAfter {
+		add(rec.Event{"op": "CloseLog", "log": sim.LogSnapshot()})
+	}
 	time.Sleep(30 * time.Millisecond)
 	// what the TNC received
 	items := sim.Snapshot()
@@ -672,8 +692,24 @@ func Main(args []string) int {
 	}
 	mk(func(s *scen) { s.Kind = "inbound"; s.Frames = []int{4095, 4096, 4097}; s.ReadBuf = 4096 })
 	mk(func(s *scen) { s.Kind = "inbound"; s.Frames = []int{65529, 65530}; s.ReadBuf = 70000 })
-	mk(func(s *scen) { s.Kind = "inbound"; s.Frames = []int{28, 28, 28, 28, 28, 28, 28, 28}; s.ReadBuf = 7; s.DiscAfter = true })
-	mk(func(s *scen) { s.Kind = "inbound"; s.Frames = []int{100, 200, 300}; s.ReadBuf = 512; s.DiscAfter = true })
+	mk(func(s *scen) {
+		s.Kind = "inbound"
+		s.Frames = []int{28, 28, 28, 28, 28, 28, 28, 28}
+		s.ReadBuf = 7
+		s.DiscAfter = true
+	})
+	mk(func(s *scen) {
+		s.Kind = "inbound"
+		s.Frames = []int{100, 200, 300}
+		s.ReadBuf = 512
+		s.DiscAfter = true
+	})
+	mk(func(s *scen) { s.Kind = "outbound"; s.Writes = []int{30}; s.DiscStyle = "delayed" })
+	mk(func(s *scen) { s.Kind = "outbound"; s.Writes = []int{30}; s.DiscStyle = "only-disconnected" })
+	mk(func(s *scen) { s.Kind = "inbound"; s.Frames = []int{20, 30}; s.ReadBuf = 4096; s.DiscStyle = "delayed" })
+	mk(func(s *scen) { s.Kind = "inbound"; s.Frames = []int{20, 30}; s.ReadBuf = 4096; s.EarlyData = 25 })
+	mk(func(s *scen) { s.Kind = "inbound"; s.Frames = []int{7}; s.ReadBuf = 5; s.EarlyData = 300 })
+	mk(func(s *scen) { s.Kind = "outbound"; s.Writes = []int{40, 50, 60}; s.NoiseBeforeBuffer = true })
 	mk(func(s *scen) { s.Kind = "listen"; s.Frames = []int{40, 400}; s.ReadBuf = 4096 })
 	mk(func(s *scen) { s.Kind = "listen"; s.Frames = []int{40, 400}; s.ReadBuf = 64; s.Noise = true })
 	for i := 0; i < *n; i++ {
